@@ -416,6 +416,40 @@ def check_property(pid, tier, seed, replay=None):
         lines.append("KNOWN-FINDING: property=%s %s %s" % (pid, kid, k["what"]))
     ev["known_seen"] = sorted(seen_known)
 
+    # Flakiness policy (DESIGN appendix D): a SINGLE failing case that is not a direct crash/hang of the
+    # library is confirmed before it is reported: the whole harness set is run once more with the same
+    # seed and the case is replayed five times. It is reported if anything fails again (any case, not
+    # necessarily the same one - schedule-dependent defects move around); if nothing does, it is
+    # recorded in the evidence as an unconfirmed transient and the run passes. Several failing cases
+    # in one run are always reported at once.
+    if len(new_fail) == 1 and not replay and spec.get("harness") and proof_ok and not err:
+        hb0, c0, v0 = new_fail[0]
+        log("one failing case (kind=%s flags=%s direct=%s): confirming (full re-run + 5 replays)" % (
+            c0.get("kind"), v0, str(c0.get("direct_violation", ""))[:160]))
+        confirmed = False
+        ev2 = {}
+        e2, f2, d2 = run_all_harnesses(pid, spec, seed, tier, ev2)
+        if e2 or [x for x in f2 if not match_known(pid, x[1], known)]:
+            confirmed = True
+        if not confirmed:
+            os.makedirs(os.path.join(RUN, pid), exist_ok=True)
+            rpath = os.path.join(RUN, pid, "confirm-replay.json")
+            json.dump({k: c0[k] for k in c0 if k != "nontrivial"}, open(rpath, "w"), default=str)
+            for _ in range(5):
+                ev3 = {}
+                e3, f3, d3 = run_all_harnesses(pid, spec, seed, "quick", ev3, (hb0, rpath))
+                if e3 or [x for x in f3 if not match_known(pid, x[1], known)]:
+                    confirmed = True
+                    break
+        if not confirmed:
+            ev.setdefault("extra", {})["unconfirmed_transient"] = {
+                "kind": c0.get("kind"), "flags": v0, "direct": str(c0.get("direct_violation", ""))[:300],
+                "input": json.dumps(c0.get("input"), default=str)[:600],
+                "note": "failed once; a full re-run with the same seed and five replays of the case all passed"}
+            log("not reproduced by a full re-run and five replays: recorded as an unconfirmed transient, not reported")
+            new_fail = []
+            ev["ok_failures"] = len(failing) - 1
+
     if new_fail:
         hb, c, v = new_fail[0]
         path = write_replay(pid, tier, seed, "failing-input", "property predicate false on the implementation's own trace" if not c.get("direct_violation") else c["direct_violation"], c, v,
